@@ -230,6 +230,8 @@ def std_kinds(names, cfg_fn=None, cfg_fn2=None, partial_fn=None):
       'tv': Kind('tv', 1, True, lambda v: (N.TagA.new() if v[0] is UNSET
                                            else N.TagA.new(v[0])), True),
       # sharing that comes (partly) through a callable's own default object
+      'eqc2': Kind('eqc2', 2, True, mk_buildable(fdl.Config, N.scaler2), True),
+      'eqc3': Kind('eqc3', 2, True, mk_buildable(fdl.Config, N.scaler3), True),
       'eqmd2': Kind('eqmd2', 2, True, mk_buildable(fdl.Config, N.md2), True),
       'mlist': Kind('mlist', 0, False, lambda v: ['m']),  # == the default
       'mdefobj': Kind('mdefobj', 0, False, lambda v: N.MUT_DEFAULT),
